@@ -46,7 +46,23 @@ RULE = ("a case is one schedule: storage {FileStorage, RamStorage} x compound {o
         "free-running with seeded random delays at storage events. A case is non-trivial when at least two commits "
         "succeeded and at least one acquisition attempt overlapped another writer's holding interval; distinct = "
         "distinct (storage, compound, threads, front-ends, multiset of attempt outcomes, policy family); distinct "
-        "INTERLEAVINGS (hash of the owner sequence of the schedule) are counted separately (interleavings.distinct).")
+        "INTERLEAVINGS (hash of the owner sequence of the schedule) are counted separately (interleavings.distinct). "
+        "I/O FAULTS (an OSError raised by the storage tap INSTEAD of a storage operation; not a process death): (1) in the "
+        "thread schedules 12% of the SegmentWriter attempts run their whole body inside `with w:` with a tiny posting pool "
+        "(limitmb: add_document spills run files) and the 1st..21st faultable storage operation of that thread inside the block "
+        "fails (finish kind 'iofault'); the checker demands the lock-released event inside the block's exit, no published TOC, "
+        "and a live set equal to the committed history afterwards; (2) sequential fault ENUMERATION cases (one in 20): a "
+        "generated with-block body (adds with vectors/columns, delete_by_term/query/document, update_document, searches; "
+        "FileStorage or RamStorage, compound or loose, SegmentWriter or AsyncWriter) is executed once to count its N faultable "
+        "operations before commit starts, then re-executed on a fresh copy with the k-th operation failing, for every k (at "
+        "most 14, thorough 60, sampled); after each: a fresh ix.writer(timeout=0.05) must succeed, generation and content must "
+        "be what they were, a later commit must advance the generation by exactly one and show old content + its own "
+        "document. MPWRITER RACE cases (one in 25, vf/workers/c04_mp.py in a subprocess with a 120 s guard): while an "
+        "MpWriter(procs=2, merged or multisegment) holds the index with sub-writer processes running, a second ix.writer() from "
+        "the same thread, another thread and another (forked) process must each raise LockError (after its timeout); after "
+        "MpWriter.commit() / cancel() / a failing with-block the lock is free for a fresh writer and for another process, the "
+        "generation advanced by exactly 1 / 0 / 0, and the documents of both writers are there; 'mp-second': MpWriter(timeout) "
+        "requested while a plain writer holds the index must raise LockError.")
 ASSUMPTIONS = [
     "fork-while-locked cases (vf/workers/c04_fork.py, one in 25 cases): the process forks with os.fork() while a writer holds "
     "the lock and the child lives on without touching the index; commit / cancel / failing with-block / BufferedWriter "
@@ -69,7 +85,15 @@ ASSUMPTIONS = [
     "a LockError raised by BufferedWriter while re-acquiring the writer after one of its internal commits is treated "
     "as an ordinary (must-be-justified) LockError; the BufferedWriter is then abandoned",
     "documents have unique ids and are never re-added; deletes target ids that were committed before",
-    "MpWriter (procs>1) is out of scope here (C18)",
+    "MpWriter (procs=2) races are free-running in a subprocess (client-side observations only, wall-clock lower bound of the "
+    "timeout with 10 ms slack); sub-writer processes left alive by cancel() are an observation, killed by the worker",
+    "injected I/O faults are ONE-SHOT and are only judged when they hit inside the with-block BEFORE commit starts (the "
+    "statement names 'a failing with-block'); the cancel() performed by __exit__ runs on a healthy storage again. A fault "
+    "that the library swallows itself is counted (finish.iofault.swallowed) and the block then fails with the user exception",
+    "faults INSIDE commit() are observation only (obs.commit_fault.*: whether the lock is still held afterwards, whether "
+    "cancel() on that writer then frees it, which state a reader sees, whether a later commit works): the statement promises "
+    "nothing for a failing commit(), so none of these counters is a verdict",
+    "lock protocol operations themselves (flock / lock file open) are never made to fail",
 ]
 SHARDS = {"quick": 4, "thorough": 16}
 BUDGET_S = {"quick": 60, "thorough": 660}
@@ -84,7 +108,13 @@ FLOORS = {
               "storage.file.schedules": 110, "front.async.attempts": 300, "front.async.deferred_commits": 60,
               "front.buffered.attempts": 300, "front.buffered.commits": 400, "lines.schedules": 60,
               "lines.yields": 150000, "proc.histories": 6, "proc.commits": 28, "proc.lockerrors": 35,
-              "proc.reads_under_lock": 40, "progress.fresh_writer_ok": 240},
+              "proc.reads_under_lock": 40, "progress.fresh_writer_ok": 240,
+              # I/O faults inside the with-block, MpWriter races (about 1/4 of what seeds 0..4 produce on a busy machine)
+              "fault.cases": 8, "fault.points": 100, "fault.checks.lock_free": 100, "fault.checks.content_unchanged": 100,
+              "fault.checks.later_commit": 100, "fault.out.fault": 90, "finish.iofault.fault": 110,
+              "reads.after_iofault": 120, "mp.completed": 8, "mp.lockerror.same_thread": 4, "mp.lockerror.other_thread": 4,
+              "mp.lockerror.other_process": 4, "mp.lockerror.mpwriter_as_second": 1, "mp.progress.fresh_writer_ok": 8,
+              "mp.held_with_subwriters_running": 3},
     # thorough floors = about 1/4 of one 16-shard x 660 s run on the same busy machine
     "thorough": {"schedules": 6000, "sched.steps": 19000000, "interleavings.distinct": 6000,
                  "attempts.lockerror": 30000, "commits.successful": 48000, "attempts.overlapping": 48000,
@@ -93,7 +123,10 @@ FLOORS = {
                  "timeout.lower_bound_checked": 30000, "storage.ram.schedules": 3000, "storage.file.schedules": 3000,
                  "front.async.attempts": 9000, "front.buffered.attempts": 9000, "proc.histories": 200,
                  "proc.commits": 1300, "progress.fresh_writer_ok": 6000, "lines.schedules": 2000,
-                 "lines.yields": 6000000},
+                 "lines.yields": 6000000,
+                 "fault.cases": 100, "fault.points": 3000, "fault.checks.lock_free": 3000, "fault.checks.later_commit": 3000,
+                 "finish.iofault.fault": 3000, "mp.completed": 100, "mp.lockerror.other_process": 50,
+                 "mp.lockerror.mpwriter_as_second": 15, "mp.progress.fresh_writer_ok": 100},
 }
 
 VOCAB = ["alfa", "bravo", "charlie", "delta", "echo", "foxtrot"]
